@@ -684,12 +684,328 @@ def _key_reuse(p):
                                        zlib.crc32(repr([list(op) for op in p["ops"]]).encode()))
 
 
+# ---- structured records on which an intermediate quantity of the Burg recursion is EXACTLY zero (kind "zerok") ---------------------
+# "all real/complex data of length 8..128" includes records whose lagged products cancel exactly: zero-inserted (up-sampled)
+# records, records mixed with the exact fs/4 carrier 1,0,-1,0,..., +-1 codes (Barker, random codes with zero lag-1 correlation),
+# short integer records, a single impulse (last / first / interior sample), a few isolated samples, exactly (anti)symmetric
+# records, records with blocks of exact zeros.  There a reflection coefficient is exactly 0.0 at some stage and further stages
+# follow (Eq. 8.2 is then a no-op, but the backward error must still be delayed by one sample), forward / backward errors
+# hold exact zeros, AR coefficients are exactly zero inside the psi correlation.  Random / coloured / tone records never do that.
+#
+# Oracle: the statement itself (independent Burg recursion _burg written from the definition - it shares nothing with the
+# library's arburg -, Yule-Walker solve, dense inverse, quadratic form at every bin; AR vector and reflection coefficients
+# returned), through minvar and through pminvar.  For records that are small integers up to a power of two the Burg model is also
+# computed in EXACT rational arithmetic by the Lean model (driver command `burg`, Q mode) and both the library's vectors and the
+# float reference are compared with it.  Records whose Burg prediction error becomes (numerically) zero are outside the
+# quantifier ("non-degenerate prediction error"): they are recognised by a predicate computed from the independent reference and
+# are NOT evaluated (tag zerok:excluded:degenerate-prediction-error counts them).
+
+BARKER = {11: [1, 1, 1, -1, -1, -1, 1, -1, -1, 1, -1], 13: [1, 1, 1, 1, 1, -1, -1, 1, 1, -1, 1, -1, 1]}
+STRUCTS = ["stuff2", "stuff3", "stuff4", "carrier4", "barker", "pm1", "shortint", "impulse", "sparse", "sym", "antisym", "zblocks"]
+INT_KINDS["int8"] = np.int8          # +-1 codes are commonly stored as int8 (wider records fall back to int64 in _api_input)
+
+
+def _zk_base(nrng, n, cplx, flavour):
+    """n NON-ZERO base samples: small integers / dyadic / float noise / a tone in noise / a constant"""
+    def one():
+        if flavour == "int":
+            return (nrng.integers(1, 6, n) * nrng.choice([-1, 1], n)).astype(float)
+        if flavour == "dyadic":
+            return (nrng.integers(1, 65, n) * nrng.choice([-1, 1], n)).astype(float) / 16.0
+        if flavour == "tone":
+            return np.cos(2 * np.pi * nrng.uniform(0.05, 0.45) * np.arange(n) + nrng.uniform(0, 6)) + 0.3 * nrng.standard_normal(n)
+        if flavour == "const":
+            return np.full(n, float(nrng.integers(1, 5)))
+        return nrng.standard_normal(n)
+    b = one()
+    if cplx:
+        b = b + 1j * one()
+    return b
+
+
+def structured(nrng, name, N, cplx, flavour="int"):
+    """-> (record of length N, description)"""
+    dt = complex if cplx else float
+    x = np.zeros(N, dtype=dt)
+    info = name
+    if name in ("stuff2", "stuff3", "stuff4"):
+        # zero-inserted up-sampling by 2 / 3 / 4 (any phase): every lag that is not a multiple of L is exactly 0
+        L = int(name[-1])
+        off = int(nrng.integers(0, L))
+        idx = np.arange(off, N, L)
+        x[idx] = _zk_base(nrng, len(idx), cplx, flavour)
+        info = "%s+%d" % (name, off)
+    elif name == "carrier4":
+        # a record mixed with the exact fs/4 carrier cos(pi n / 2) = 1,0,-1,0,... (or sin: 0,1,0,-1,...)
+        off = int(nrng.integers(0, 2))
+        car = np.array(([0.0, 1.0, 0.0, -1.0] if off else [1.0, 0.0, -1.0, 0.0]) * (N // 4 + 1))[:N]
+        x = (_zk_base(nrng, N, cplx, flavour) * car).astype(dt)
+        info = "carrier4:" + ("sin" if off else "cos")
+    elif name == "barker":
+        # Barker-11 / 13 (aperiodic lag-1 correlation exactly 0), alone or followed by silence; reversed / sign-alternated /
+        # times a Gaussian integer
+        L = 13 if N >= 13 and nrng.integers(0, 3) else 11
+        code = np.array(BARKER[L], dtype=float)
+        if nrng.integers(0, 2):
+            code = code[::-1].copy()
+        if nrng.integers(0, 2):
+            code = code * (-1.0) ** np.arange(L)
+        x[:L] = code
+        if cplx:
+            x = x * [1j, 1 + 1j, -1j, 1 - 2j][int(nrng.integers(0, 4))]
+        info = "barker%d" % L
+    elif name == "pm1":
+        # random +-1 (complex: +-1, +-i) code whose lag-1 aperiodic correlation is exactly 0 (odd length: an even number of products)
+        n = N if N % 2 else N - 1
+        C = nrng.choice([-1.0, 1.0], (4096, n))
+        if cplx:
+            C = C * nrng.choice([1, 1j], (4096, n))
+        hit = np.flatnonzero(np.sum(C[:, 1:] * np.conj(C[:, :-1]), axis=1) == 0)
+        if len(hit) == 0:
+            return structured(nrng, "stuff2", N, cplx, flavour)
+        x[:n] = C[hit[0]]
+    elif name == "shortint":
+        # integer record (hardly any zero sample) whose lag-1 products cancel exactly
+        C = nrng.integers(-3, 4, (8192, N)).astype(float)
+        if cplx:
+            C = C + 1j * nrng.integers(-2, 3, (8192, N))
+        hit = np.flatnonzero((np.sum(C[:, 1:] * np.conj(C[:, :-1]), axis=1) == 0) & (np.sum(C != 0, axis=1) >= N - 3))
+        if len(hit) == 0:
+            return structured(nrng, "stuff2", N, cplx, flavour)
+        x = C[hit[0]].astype(dt)
+    elif name == "impulse":
+        pos = [N - 1, 0, int(nrng.integers(1, N - 1)), N - 1][int(nrng.integers(0, 4))]
+        x[pos] = _zk_base(nrng, 1, cplx, flavour)[0]
+        info = "impulse:" + ("last" if pos == N - 1 else "first" if pos == 0 else "interior")
+    elif name == "sparse":
+        # a few isolated samples: the reflection coefficients are exactly 0 up to the smallest spacing, then not
+        k = int(nrng.integers(2, 5))
+        pos = np.sort(nrng.choice(N, k, replace=False))
+        if nrng.integers(0, 2):
+            pos[-1] = N - 1
+        if nrng.integers(0, 2):
+            pos[1] = min(pos[0] + int(nrng.integers(2, 6)), N - 1)
+        pos = np.unique(pos)
+        x[pos] = _zk_base(nrng, len(pos), cplx, flavour)
+        info = "sparse%d" % len(pos)
+    elif name in ("sym", "antisym"):
+        # x[N-1-n] = +- x[n] exactly (the centre sample of an odd antisymmetric record is 0)
+        h = _zk_base(nrng, N // 2, cplx, flavour)
+        s = 1.0 if name == "sym" else -1.0
+        x[:N // 2] = h
+        x[N - N // 2:] = s * h[::-1]
+        if N % 2 and s > 0:
+            x[N // 2] = _zk_base(nrng, 1, cplx, flavour)[0]
+    elif name == "zblocks":
+        x = _zk_base(nrng, N, cplx, flavour).astype(dt)
+        w = int(nrng.integers(0, 4))
+        if w == 0:      # leading block of zeros
+            x[:int(nrng.integers(2, N // 2))] = 0
+        elif w == 1:    # trailing block
+            x[N - int(nrng.integers(2, N // 2)):] = 0
+        elif w == 2:    # bursts: b samples on, b samples off
+            b = int(nrng.integers(1, 5))
+            x[(np.arange(N) // b) % 2 == 1] = 0
+        else:           # two interior gaps
+            for _ in range(2):
+                a = int(nrng.integers(1, N - 3))
+                x[a:a + int(nrng.integers(2, max(3, N // 4)))] = 0
+        info = "zblocks:" + ["lead", "trail", "bursts", "gaps"][w]
+    else:
+        raise ValueError(name)
+    if not np.any(x):
+        x[0] = 1
+    return x, info
+
+
+_ZK_STATE = {}
+ZK_EXACT_MAX_NONZERO = 5      # exact rationals grow doubly exponentially with the number of non-zero stages: measured <= 0.25 s per
+ZK_EXACT_MAX_INT = 2 ** 11    # record up to 5 non-zero stages (N <= 128, |integers| <= 2^11); 7 stages already take seconds
+
+
+def _zk_integers(x):
+    """x * 2^e as exact small integers (e chosen from the binary expansions), or None: Burg's AR vector and reflection
+    coefficients do not depend on a scale factor, and scaling by a power of two is exact in floating point"""
+    x = np.asarray(x)
+    parts = np.concatenate((np.real(x).astype(float), np.imag(x).astype(float))) if np.iscomplexobj(x) else x.astype(float)
+    nzp = parts[parts != 0]
+    if nzp.size == 0 or not np.all(np.isfinite(nzp)):
+        return None
+    lsb = []
+    for v in nzp:
+        mnt, ex = np.frexp(abs(float(v)))
+        M = int(mnt * 2 ** 53)
+        lsb.append(int(ex) - 53 + ((M & -M).bit_length() - 1))
+    e = -min(lsb)
+    if abs(e) > 900:
+        return None
+    xi = np.ldexp(np.real(x), e) + (1j * np.ldexp(np.imag(x), e) if np.iscomplexobj(x) else 0)
+    if np.max(np.abs(np.real(xi))) > ZK_EXACT_MAX_INT or np.max(np.abs(np.imag(xi))) > ZK_EXACT_MAX_INT:
+        return None
+    return xi
+
+
+def _zk_state(p):
+    """what the independent reference says about the record (cached per record and order): degenerate?, where the exact-zero
+    reflection coefficients are, and the request line of the exact model if the record qualifies for it"""
+    x = np.asarray(p["x"])
+    m = int(p["m"])
+    key = (x.dtype.str, x.tobytes(), m)
+    st = _ZK_STATE.get(key)
+    if st is None:
+        if len(_ZK_STATE) > 8192:
+            _ZK_STATE.clear()
+        with np.errstate(all="ignore"):
+            a, rho, ks = _burg(x, m - 1)
+            r0 = float(np.mean(np.abs(x) ** 2))
+            # the predicate of the rest of this module (_ok): rho_{m-1} >= 1e-7 rho_0 (rho_k is non-increasing); NaN (0/0 in
+            # the recursion: forward and backward errors all exactly zero) compares False
+            degenerate = not (np.all(np.isfinite(ks)) and np.all(np.isfinite(a)) and r0 > 0 and rho >= 1e-7 * r0)
+        zero = np.flatnonzero(ks == 0) if not degenerate else np.zeros(0, dtype=int)
+        st = {"degenerate": degenerate, "a": a, "rho": rho, "ks": ks, "zero": zero, "line": None}
+        if not degenerate and int(np.sum(ks != 0)) <= ZK_EXACT_MAX_NONZERO:
+            xi = _zk_integers(x)
+            if xi is not None:
+                st["line"] = proto.request("burg", "Q", [m - 1, "none"], [xi])
+        _ZK_STATE[key] = st
+    return st
+
+
+_ZK_EXACT = {}
+
+
+def _zk_exact(st):
+    """('ok', a, ks) from the exact model / ('err', why) / None when the record does not qualify"""
+    import os
+    line = st["line"]
+    if line is None or not os.path.exists(proto.DRIVER):
+        return None
+    if line not in _ZK_EXACT:
+        if len(_ZK_EXACT) > 8192:
+            _ZK_EXACT.clear()
+        try:
+            _ZK_EXACT[line] = proto.run_driver([line], timeout=60)[0]
+        except Exception as e:             # (timeout: the estimate of the cost was wrong; the float reference still applies)
+            _ZK_EXACT[line] = "err harness:%s" % type(e).__name__
+    s, val = proto.parse_reply(_ZK_EXACT[line], "Q")
+    if s != "ok":
+        return ("err", val)
+    return ("ok", proto.q2c(val[0]), proto.q2c(val[2]))
+
+
+def _zk_prefetch(cases):
+    """one (sharded) driver run for all the exact requests of a generator pass instead of one process per case"""
+    import os
+    if not os.path.exists(proto.DRIVER):
+        return
+    lines = []
+    for kind, p in cases:
+        if kind == "zerok":
+            ln = _zk_state(p)["line"]
+            if ln is not None and ln not in _ZK_EXACT and ln not in lines:
+                lines.append(ln)
+    try:
+        for ln, rep in zip(lines, proto.run_driver(lines, shards=8, timeout=300)):
+            _ZK_EXACT[ln] = rep
+    except Exception:
+        pass                               # the oracle asks case by case
+
+
+# measured on the unchanged tree (generator passes of quick seeds 0..9 and four thorough passes, variants of vcheck.vary included,
+# 1050 records with an exact reference): library vs exact rationals rel (max-norm) <= 4.4e-15 for the AR vector, <= 2.0e-15 for
+# the reflection coefficients; float reference vs exact <= 9e-16.  1e-12 is > 200 x the worst observed.  (Against the float
+# reference, same passes, 2040 records: AR <= 1.3e-12, reflection <= 7.6e-13 - existing tolerance 1e-8 -; PSD rel err <= 1.1e-6 of
+# the existing tolerance _tol(cond), cond R <= 4.3e4.)
+ZK_EXACT_TOL = 1e-12
+
+
+def oracle_zerok(p):
+    sp = _sp()
+    st = _zk_state(p)
+    if st["degenerate"]:
+        return []                          # outside the quantifier; counted by the tag zerok:excluded:degenerate-prediction-error
+    x = np.asarray(p["x"])
+    xin = _api_input(p)
+    m, nfft, fs = int(p["m"]), int(p["nfft"]), p["fs"]
+    what = "%s, %s via %s" % (p.get("struct"), _desc(p), p.get("entry", "minvar"))
+    if p.get("entry", "minvar") == "minvar":
+        psd, A, k = sp.minvar(xin, m, sampling=fs, NFFT=nfft)
+        out = _check_function_output((psd, A, k), x, m, nfft, float(fs), what)
+    else:
+        scale = bool(p.get("scale", False))
+        o = sp.pminvar(xin, m, NFFT=nfft, sampling=fs, scale_by_freq=scale)
+        out = _check_class_output(o, xin, x, m, nfft, fs, scale, what)
+        A, k = o.ar, o.reflection
+    ex = _zk_exact(st)
+    if ex is not None:
+        if ex[0] != "ok":
+            if not str(ex[1]).startswith("harness:"):
+                out.append("the exact model rejects (%s) a record the independent reference finds non-degenerate (%s)" % (ex[1], what))
+        else:
+            A, k = c(A), c(k)
+            if rel(st["a"], ex[1]) > ZK_EXACT_TOL or rel(st["ks"], ex[2]) > ZK_EXACT_TOL:
+                out.append("HARNESS: the independent float Burg reference and the exact rational Burg model disagree (rel %.2e / %.2e; %s)" % (
+                    rel(st["a"], ex[1]), rel(st["ks"], ex[2]), what))
+            if len(A) != m or rel(A[1:], ex[1]) > ZK_EXACT_TOL:
+                out.append("AR vector is not the Burg AR vector of the record computed in exact rational arithmetic (rel err %.2e; %s)" % (
+                    rel(A[1:], ex[1]) if len(A) == m else float("inf"), what))
+            if len(k) != m - 1 or rel(k, ex[2]) > ZK_EXACT_TOL:
+                out.append("reflection coefficients are not the Burg reflection coefficients of the record computed in exact rational "
+                           "arithmetic (rel err %.2e; %s)" % (rel(k, ex[2]) if len(k) == m - 1 else float("inf"), what))
+    return out
+
+
+def model_zerok(p):
+    if p.get("entry", "minvar") != "minvar" or _zk_state(p)["degenerate"]:
+        return None
+    return model_minvar(p)
+
+
+def _tags_zerok(p):
+    st = _zk_state(p)
+    x = np.asarray(p["x"])
+    m = int(p["m"])
+    t = ["zerok:struct=%s" % (p.get("sclass") or str(p.get("struct", "?")).split(":")[0].split("+")[0]), "zerok:" + ("complex" if np.iscomplexobj(x) else "real"),
+         "zerok:m=%d" % m, "zerok:entry=%s" % p.get("entry", "minvar"), "zerok:N" + ("<=16" if len(x) <= 16 else "<=64" if len(x) <= 64 else ">64")]
+    if p.get("flavour"):
+        t.append("zerok:samples=" + p["flavour"])
+    if p.get("dkind"):
+        t.append("zerok:input:" + p["dkind"])
+    if p.get("scale"):
+        t.append("zerok:scale_by_freq")
+    if st["degenerate"]:
+        return t + ["zerok:excluded:degenerate-prediction-error"]
+    z, ks = st["zero"], st["ks"]
+    if len(z) == 0:
+        t.append("zerok:no-exact-zero-k")
+    else:
+        if z[0] < m - 2:
+            t.append("zerok:exact-zero-k-followed-by-further-stages")
+            if np.any(ks[z[0] + 1:] != 0):
+                t.append("zerok:exact-zero-k-followed-by-non-zero-k")
+        if z[0] == 0:
+            t.append("zerok:k1=0")
+        if len(z) == len(ks):
+            t.append("zerok:all-k-zero")
+        if np.any(z > 0) and np.any(ks[:int(z[z > 0][0])] != 0):
+            t.append("zerok:non-zero-k-then-exact-zero-k")
+    ex = _zk_exact(st)
+    t.append("zerok:exact-rational-reference:" + ("not-applicable" if ex is None else "used" if ex[0] == "ok" else "failed"))
+    return t
+
+
+def _key_zerok(p):
+    return _key(p) + "|%s|%s" % (p.get("entry"), p.get("struct"))
+
+
 KINDS = {
     "reuse": {"oracle": oracle_reuse, "key": _key_reuse, "tags": _tags_reuse},
     "minvar": {"impl": impl_minvar, "model": model_minvar, "oracle": oracle_minvar, "rtol": 1e-7, "atol": 1e-300, "key": _key, "tags": _tags},
     "class": {"oracle": oracle_class, "key": _key, "tags": _tags_class},
     "forms": {"oracle": oracle_forms, "key": _key, "tags": lambda p: ["form:" + p["form"]]},
     "ident": {"oracle": oracle_ident, "key": _key, "tags": _tags_ident},
+    # same correspondence tolerance as kind minvar (function entry, NFFT <= MODEL_MAX_NFFT, non-degenerate records only)
+    "zerok": {"impl": impl_minvar, "model": model_zerok, "oracle": oracle_zerok, "rtol": 1e-7, "atol": 1e-300, "key": _key_zerok, "tags": _tags_zerok},
 }
 
 
@@ -837,6 +1153,9 @@ def gen(rng, nrng, tier):
     # (6) histories on re-used estimator objects (kind "reuse"): see _gen_reuse
     yield from _gen_reuse(nrng, tier)
 
+    # (7) structured records with exactly-zero intermediate quantities of the Burg recursion (kind "zerok"): see _gen_zerok
+    yield from _gen_zerok(nrng, tier)
+
 
 FS_REUSE = [1.0, 2.5, 100.0, 0.01, 0.5, 3]
 
@@ -982,3 +1301,56 @@ def _gen_reuse(nrng, tier):
                 break
         if ok:
             yield ("reuse", q)
+
+
+def _gen_zerok(nrng, tier):
+    """every structure class x real / complex x sample flavours (small integers, dyadic, float noise, tone in noise) x
+    m = 2..12 x both entry points (minvar; pminvar with scale_by_freq off / on) x NFFT at / above 2m, even / odd x the sampling
+    values of the module; integer records also as int8 / int16 / int64 arrays and lists.  A few records per pass are degenerate on
+    purpose (a pure fs/4 carrier, a pure alternating-sign record, a constant on a 1-in-2 grid: the prediction error becomes exactly
+    zero): the predicate must exclude them, the tag counts them.  Structured small-integer records also go through the exact
+    Musicus identity (kind ident)."""
+    quick = tier == "quick"
+    flav = ["int", "dyadic", "noise", "tone"]
+    cases = []
+    j = 0
+    for rep in range(3 if quick else 10):
+        for si, name in enumerate(STRUCTS):
+            for cplx in (False, True):
+                j += 1
+                fl = flav[(rep + si + cplx) % 4]
+                N = int(nrng.integers(8, 129)) if (j % 3) else int(nrng.integers(8, 33))
+                if name == "barker":
+                    N = [11, 13, max(N, 13)][j % 3] if not (j % 3 == 2 and N < 13) else 13
+                    fl = "int"
+                elif name in ("pm1", "shortint"):
+                    fl = "int"
+                    if name == "shortint":
+                        N = 8 + (N - 8) % 17             # 8..24: longer records hardly ever cancel exactly
+                mmax = min(N // 2, 12)
+                m = mmax if j % 5 == 0 else int(nrng.integers(2, mmax + 1)) if j % 7 else int(nrng.integers(2, min(mmax, 4) + 1))
+                x, info = structured(nrng, name, N, cplx, fl)
+                entry = ["minvar", "pminvar", "minvar"][(j + rep) % 3]
+                nfft = max([2 * m, 2 * m + 1, 32, 64, 33, N, N + 1, 128][(j + si) % 8], 2 * m)
+                q = {"x": x, "m": m, "nfft": nfft, "fs": FS_REUSE[j % len(FS_REUSE)] if entry == "pminvar" else [1.0, 2.5, 100.0, 0.01][j % 4],
+                     "entry": entry, "struct": info, "sclass": name, "flavour": fl}
+                if entry == "pminvar":
+                    q["scale"] = bool((j // 3) % 2)
+                if fl == "int" and j % 2:
+                    q["dkind"] = ["int8", "list", "int16", "int64"][(j // 2) % 4] if not cplx else "list"
+                cases.append(("zerok", q))
+                if fl == "int" and N <= 16 and rep < (1 if quick else 4):
+                    mi = 3 + j % 3
+                    if mi <= N // 2 and _ok(x, mi):
+                        cases.append(("ident", {"x": x, "m": mi}))
+    # records that are degenerate on purpose (the predicate and its tag are exercised in every pass)
+    for i in range(4 if quick else 8):
+        N = int(nrng.integers(8, 65))
+        n = np.arange(N)
+        amp = float(nrng.integers(1, 6))
+        x = [amp * np.cos(np.pi * n / 2).round(), amp * (-1.0) ** n, amp * (n % 2 == 0), amp * np.sin(np.pi * n / 2).round() * (1 + 2j)][i % 4]
+        x = np.asarray(x, dtype=complex if np.iscomplexobj(x) else float) + 0.0
+        cases.append(("zerok", {"x": x, "m": int(nrng.integers(3, min(N // 2, 8) + 1)), "nfft": 32, "fs": 1.0, "entry": ["minvar", "pminvar"][i % 2],
+                                "struct": ["pure-carrier4", "pure-alternating", "constant-on-grid2", "pure-carrier4"][i % 4], "flavour": "const"}))
+    _zk_prefetch(cases)
+    yield from cases
